@@ -5,7 +5,14 @@ ALLOWED_AXIOMS = set()  # no axiom is expected under any property theorem
 
 TRUSTED_BASE = [
     "Coq 8.16.1 kernel, coqc, vm_compute (no native_compute)",
-    "Coq stdlib + std++ 1.8.0; no Axiom/Parameter/Admitted in /verif/coq (grep on every run)",
+    "Coq standard library only (no std++, Equations, Program, CoqHammer in the sources); axioms: none - every theorem "
+    "of Properties/*.v answers 'Closed under the global context' to Print Assumptions (checked on every run), "
+    "no Axiom/Parameter/Conjecture/Admitted/admit anywhere in /verif/coq (grep on every run); thorough tier: coqchk -o",
+    "no extraction: the model is evaluated inside Coq (vm_compute), hence no Extract Constant / Extract Inductive",
+    "source-facts extractor (harness/facts.go, go/ast) regenerating SourceFacts.v from /repo on every run; "
+    "Facts/FactsOK_<ID>.v recompiled against it",
+    "ptrace monitor harness/sysmon/sysmon.c (numbering, killing and failing of mutating system calls), "
+    "harness/fakebin/rclone (stand-in for rclone: copies exactly the listed existing files, never overwrites)",
     "hand-written Gallina model tied to /repo by differential execution (Go harness /verif/harness, "
     "canonicalisation of real file systems into model terms, generated cases_*.v evaluated by coqc)",
     "Gallina BLAKE3 (Base/Blake3.v) validated on the 21 official vectors",
